@@ -540,6 +540,13 @@ def weave(txt, s, notes, canary=False):
             j = pos - 1
             while j > body_open:
                 c = mask[j]
+                if c == '}' and depth == 0:
+                    # a block that closes right before an identifier/keyword ends the previous (block) statement
+                    k = j + 1
+                    while k < pos and mask[k] in ' \t\n':
+                        k += 1
+                    if k < len(mask) and (mask[k].isalpha() or mask[k] == '_') and not mask.startswith('else', k):
+                        break
                 if c in ')]}':
                     depth += 1
                 elif c in '([{':
@@ -552,9 +559,6 @@ def weave(txt, s, notes, canary=False):
                     depth -= 1
                 elif c == ';' and depth == 0:
                     break
-                if c == '}' and depth == 1:
-                    # a closed block right before: statement boundary only if it is a block statement
-                    pass
                 j -= 1
             inserts.append((j + 1, '\n' + body + '\n'))
         elif name in ('before', 'after'):
